@@ -94,7 +94,8 @@ func applyServiceExtends(ctx context.Context, name string, services map[string]a
 		if err != nil {
 			return nil, err
 		}
-		filename = refFilename
+		// the base service, and the services it extends, are defined by the referenced file
+		ctx = context.WithValue(ctx, consts.ComposeFileKey{}, refFilename)
 	} else {
 		_, ok := services[ref]
 		if !ok {
